@@ -51,12 +51,19 @@ NEG = [
     ("MCSolver", "MC_Conserve_neg_halo", "HaloIsPadding"),
     ("Orientation", "MC_Orientation_neg_sincos", "Cardinals"),
     ("Orientation", "MC_Orientation_neg_sign", "Cardinals"),
+    ("Cache", "MC_Cache_sim_neg_key", "SIM"),
 ]
 
 
 def negcontrols():
     bad = 0
     for module, cfg, inv in NEG:
+        if inv == "SIM":  # free mode of Cache.tla: found by simulation
+            r = run_tlc(module, cfg, workers=1, simulate="num=2000", extra=["-depth", "120", "-seed", "3"], timeout=600)
+            ok = not r.ok
+            print("NEGCONTROL %-32s violated=%-22s %s" % (cfg, r.violated, "ok" if ok else "NOT VIOLATED in simulation"))
+            bad += not ok
+            continue
         r = run_tlc(module, cfg, env={"EMIT_EVERY": "1", "EMIT_PHASE": "0", "JAVA_TOOL_OPTIONS": "-XX:+UseParallelGC -Xmx8g"}, timeout=1200)
         ok = (not r.ok) and (inv is None or r.violated == inv)
         print("NEGCONTROL %-32s violated=%-22s %s" % (cfg, r.violated, "ok" if ok else "NOT AS EXPECTED (wanted %s)" % inv))
